@@ -1,6 +1,6 @@
 /-
-  Lemmas.ReaderSections — every element reader and every section reader of Model.Reader is stable
-  (Lemmas.ReaderStable): what it accepts and returns does not depend on the bytes after what it consumed.
+  Lemmas.ReaderSections — every element reader of Model.Reader is stable (Lemmas.ReaderStable): what it
+  accepts and returns does not depend on the bytes after what it consumed.
 -/
 import W2c2Verif.Lemmas.ReaderStable
 
@@ -8,72 +8,109 @@ namespace W2c2Verif.Lemmas.Reader
 open W2c2Verif.Model W2c2Verif.Model.Reader
 open W2c2Verif.Gen
 
-/-- one structural step of a stability proof -/
-macro "stable_step" : tactic => `(tactic| first
-  | exact stable_byte _ | exact stable_u32 _ | exact stable_i32 _ | exact stable_i64 _ _
-  | exact stable_fixed _ _ | exact stable_name _ | exact stable_bytesVec _
-  | exact stable_pure rfl | exact stable_fail _ _ | exact stable_undefined _ _
-  | assumption
-  | apply stable_bind_eq | apply stable_vec | apply stable_sliced | apply stable_ite
-  | intro _
-  | split)
-
-macro "stable" : tactic => `(tactic| repeat stable_step)
-
 theorem stable_valueType (e : Nat) : Stable (valueType e) := by
-  unfold valueType; stable
+  unfold valueType
+  refine stable_bind_eq (stable_i32 _) fun c => ?_
+  split
+  · exact stable_pure_eq _
+  · exact stable_fail_eq _
 
 theorem stable_functionType : Stable functionType := by
-  have := stable_valueType
-  unfold functionType; stable
+  unfold functionType
+  refine stable_bind_eq (stable_byte _) fun ind => stable_ite_eq (fun _ => stable_fail_eq _) fun _ => ?_
+  refine stable_bind_eq (stable_u32 _) fun pc => ?_
+  refine stable_bind_eq (stable_vec (stable_valueType _) _) fun params => ?_
+  refine stable_bind_eq (stable_u32 _) fun rc => ?_
+  exact stable_bind_eq (stable_vec (stable_valueType _) _) fun results => stable_pure_eq _
 
 theorem stable_globalType : Stable globalType := by
-  have := stable_valueType
-  unfold globalType; stable
+  unfold globalType
+  refine stable_bind_eq (stable_valueType _) fun vt => ?_
+  refine stable_bind_eq (stable_byte _) fun mi => ?_
+  exact stable_ite_eq (fun _ => stable_fail_eq _) fun _ => stable_pure_eq _
 
 theorem stable_limits : Stable limits := by
-  unfold limits; stable
+  unfold limits
+  refine stable_bind_eq (stable_byte _) fun kind => ?_
+  refine stable_bind_eq (stable_u32 _) fun min => ?_
+  split
+  · exact stable_fail_eq _
+  · refine stable_ite_eq (fun _ => ?_) (fun _ => stable_pure_eq _)
+    exact stable_bind_eq (stable_u32 _) fun max => stable_pure_eq _
 
 theorem stable_memoryType : Stable memoryType := by
-  have := stable_limits
-  unfold memoryType; stable
+  unfold memoryType
+  refine stable_bind_eq stable_limits fun x => ?_
+  split
+  exact stable_pure_eq _
 
 theorem stable_tableType : Stable tableType := by
-  have := stable_limits
-  unfold tableType; stable
+  unfold tableType
+  refine stable_bind_eq (stable_byte _) fun t => stable_ite_eq (fun _ => stable_fail_eq _) fun _ => ?_
+  refine stable_bind_eq stable_limits fun x => ?_
+  split
+  exact stable_pure_eq _
 
 theorem stable_constImmediate (cfg : Cfg) (e : Nat) (rd : String) : Stable (constImmediate cfg e rd) := by
-  unfold constImmediate; stable
+  unfold constImmediate
+  split
+  · exact stable_bind_eq (stable_i32 _) fun _ => stable_pure_eq _
+  · exact stable_bind_eq (stable_i64 _ _) fun _ => stable_pure_eq _
+  · exact stable_bind_eq (stable_fixed _ _) fun _ => stable_pure_eq _
+  · exact stable_bind_eq (stable_fixed _ _) fun _ => stable_pure_eq _
+  · exact stable_fail_eq _
+
+theorem stable_endByte (e : Nat) :
+    Stable (byte e >>= fun op2 => if op2.toNat ≠ Reader.opcodeEnd then (P.fail e : P Unit) else pure ()) :=
+  stable_bind_eq (stable_byte _) fun _ => stable_ite_eq (fun _ => stable_fail_eq _) fun _ => stable_pure_eq _
 
 theorem stable_constExpr (cfg : Cfg) (e : Nat) : Stable (constExpr cfg e) := by
-  have := stable_constImmediate cfg e
-  unfold constExpr; stable
+  unfold constExpr
+  refine stable_bind_eq (stable_byte _) fun op => ?_
+  split
+  · exact stable_bind_eq (stable_constImmediate _ _ _) fun _ => stable_endByte e
+  · refine stable_ite_eq (fun _ => ?_) (fun _ => stable_ite_eq (fun _ => stable_pure_eq _) fun _ => stable_fail_eq _)
+    exact stable_bind_eq (stable_u32 _) fun _ => stable_endByte e
 
 theorem stable_globalEntry (cfg : Cfg) : Stable (globalEntry cfg) := by
-  have := stable_globalType
-  have := stable_constExpr cfg
-  unfold globalEntry; stable
+  unfold globalEntry
+  refine stable_bind_eq stable_globalType fun t => ?_
+  exact stable_bind_eq (stable_sliced (stable_constExpr _ _)) fun _ => stable_pure_eq _
 
 theorem stable_functionEntry (n : Nat) : Stable (functionEntry n) := by
-  unfold functionEntry; stable
+  unfold functionEntry
+  exact stable_bind_eq (stable_u32 _) fun ti => stable_ite_eq (fun _ => stable_fail_eq _) fun _ => stable_pure_eq _
 
 theorem stable_exportEntry : Stable exportEntry := by
-  unfold exportEntry; stable
+  unfold exportEntry
+  refine stable_bind_eq (stable_name _) fun nm => ?_
+  refine stable_bind_eq (stable_byte _) fun k => stable_ite_eq (fun _ => stable_fail_eq _) fun _ => ?_
+  exact stable_bind_eq (stable_u32 _) fun idx => stable_pure_eq _
 
 theorem stable_elemEntry (cfg : Cfg) : Stable (elemEntry cfg) := by
-  have := stable_constExpr cfg
-  unfold elemEntry; stable
+  unfold elemEntry
+  refine stable_bind_eq (stable_u32 _) fun ti => ?_
+  refine stable_bind_eq (stable_sliced (stable_constExpr _ _)) fun off => ?_
+  refine stable_bind_eq (stable_u32 _) fun n => ?_
+  exact stable_bind_eq (stable_vec (stable_u32 _) _) fun fs => stable_pure_eq _
 
 theorem stable_localsDecl : Stable localsDecl := by
-  have := stable_valueType
-  unfold localsDecl; stable
+  unfold localsDecl
+  refine stable_bind_eq (stable_u32 _) fun c => ?_
+  exact stable_bind_eq (stable_valueType _) fun t => stable_pure_eq _
 
 theorem stable_localsDecls : Stable localsDecls := by
-  have := stable_localsDecl
-  unfold localsDecls; stable
+  unfold localsDecls
+  exact stable_bind_eq (stable_u32 _) fun n => stable_vec stable_localsDecl _
 
 theorem stable_dataEntry (cfg : Cfg) : Stable (dataEntry cfg) := by
-  have := stable_constExpr cfg
-  unfold dataEntry; stable
+  unfold dataEntry
+  refine stable_bind_eq (stable_u32 _) fun kind => ?_
+  split
+  · exact stable_fail_eq _
+  · refine stable_bind_eq ?_ fun mi => stable_bind_eq ?_ fun off => ?_
+    · exact stable_ite_eq (fun _ => stable_u32 _) fun _ => stable_pure_eq _
+    · exact stable_ite_eq (fun _ => stable_sliced (stable_constExpr _ _)) fun _ => stable_pure_eq _
+    · exact stable_bind_eq (stable_bytesVec _) fun bs => stable_pure_eq _
 
 end W2c2Verif.Lemmas.Reader
